@@ -281,7 +281,17 @@ class Gen:
                 "l1|batch(2, 0)|map('sum')|join('+')",
                 "l1|slice(2)|map('list')|list|string",
                 "d1|tojson",
+                "d1|tojson(indent=2)",
+                "l1|tojson(1)",
+                "ld|tojson",
                 "d1|xmlattr",
+                "o1['a']|string",
+                "o1['b']",
+                "lo|map(attribute='a')|join(',')",
+                "lo|sort(attribute='a')|map(attribute='b')|join",
+                "lo|selectattr('a')|list|length|string",
+                "lo|groupby('a')|map('first')|join",
+                "lo|unique(attribute='a')|list|length|string",
                 "l2|map('upper')|join",
                 "l1|select('odd')|join",
                 "l1|reject('gt', 1)|join",
@@ -422,7 +432,12 @@ class Gen:
         """Statements aimed at the places where the code generator turns a set of names into text."""
         P = self.prog
         names = self._names(2, 6)
-        k = self.d(6)
+        k = self.d(7)
+        if k == 6:
+            P.feat("bias_namespace_tuple_set")
+            s = "".join(self.tag(f"set {n} = namespace()") for n in names)
+            s += self.tag(f"set {', '.join(n + '.' + 'xyzuvw'[i] for i, n in enumerate(names))} = {', '.join(str(self.d(9)) for _ in names)}")
+            return s + "".join(self.var(f"{n}.{'xyzuvw'[i]}") for i, n in enumerate(names))
         if k == 0:
             P.feat("bias_branch_stores")
             a = "".join(self.tag(f"set {n} = {self.d(9)}") for n in names)
@@ -500,6 +515,7 @@ class Gen:
             (2 if sc.in_loop and self.loopcontrols else 0),  # 17 break/continue
             0 if deep else 1,  # 18 raw
             0 if deep or not any(m[2] for m in sc.macros) else 2,  # 19 call block
+            0 if deep else 1,  # 20 autoescape block
         ]
         k = self.tape.weighted(weights, self.stream)
         P = self.prog
@@ -615,6 +631,9 @@ class Gen:
             return self.tag(f"if {self.e_bool(sc, 1)}") + self.tag(self.pick(["break", "continue"])) + self.tag("endif")
         if k == 18:
             return self.tag("raw") + self.pick(["{{ x }}", "{% y %}", "r"]) + self.tag("endraw")
+        if k == 20:
+            P.feat("autoescape_block")
+            return self.tag(f"autoescape {self.pick(['false', 'true'])}") + self.body(Scope(sc), depth + 1) + self.tag("endautoescape")
         if k == 19:
             P.feat("call_block")
             name, nargs, _c = self.pick([m for m in sc.macros if m[2]])
@@ -952,6 +971,7 @@ def make_data_rng(rng) -> dict:
         "l0": [rng.randrange(3) for _ in range(rng.randrange(3))],
         "lw": [[rng.randrange(4) for _ in range(rng.randrange(3))] for _ in range(1 + rng.randrange(3))],
         "o1": Obj(rng.randrange(3), rng.choice(strs), rng.randrange(5)),
+        "lo": [Obj(rng.randrange(3), rng.choice(strs), rng.randrange(5)) for _ in range(1 + rng.randrange(3))],
         "tree": make_tree(rng),
         "f1": f1,
         "f2": f2,
